@@ -30,6 +30,7 @@ SCENARIOS = [
     ("S9-none-and-part-share", [("call", "f_none", 1), ("call", "f_same_a", 1), ("call", "f_part", 1)]),
     ("S10-oversize-for-cache", [("call", "f_big", 1)]),
     ("S11-partition-merge", [("call", "f_child", 1)]),
+    ("S12-prevented-then-plain", [("callpfc", "f_str", 1), ("call", "f_str", 2)]),
 ]
 
 
@@ -69,6 +70,8 @@ def run_steps(steps, result):
         try:
             if kind == "call":
                 out = observe(f(arg))
+            elif kind == "callpfc":  # the same call made with further (nested) calls prevented
+                out = observe(f.with_prevent_further_calls(True)(arg))
             elif kind == "forget":
                 f.forget(arg)
                 out = ("done", None)
@@ -127,7 +130,7 @@ def child(root, cache, steps, plan, uuid_base, record_audit=False):
 def phase2_steps(steps):
     seen = []
     for st in steps:
-        if st[0] == "call" and (st[1], st[2]) not in seen:
+        if st[0] in ("call", "callpfc") and (st[1], st[2]) not in seen:
             seen.append((st[1], st[2]))
     out = []
     for name, arg in seen:
@@ -148,7 +151,7 @@ def judge_phase(results, tag, must_serve):
     """Return (clause, what) or None. must_serve: body count per (fn,arg) must be <=1 over the phase."""
     counts = {}
     for st, out, bodies in results:
-        if st[0] != "call":
+        if st[0] not in ("call", "callpfc"):
             continue
         if not check_value(st, out):
             kind = "raised" if out[0] == "exc" else "wrong-value"
@@ -210,7 +213,7 @@ def fault_case(args):
         bad = None
         if not crashed:
             # the process survived an injected error: callers must not see it
-            res = [r for r in pay1["results"][:len(steps)] if r[0][0] == "call"]
+            res = [r for r in pay1["results"][:len(steps)] if r[0][0] in ("call", "callpfc")]
             bad = judge_phase(res, "same-process", False) or judge_phase(pay1["results"][len(steps):], "same-process-later", True)
         p2 = phase2_steps(steps)
         if bad is None and second is None:
